@@ -83,7 +83,7 @@ var fixtureCache []eckg.LocalPartySaveData
 func LoadECFixtures() ([]eckg.LocalPartySaveData, error) {
 	if fixtureCache == nil {
 		for i := 0; i < 5; i++ {
-			b, err := os.ReadFile(fmt.Sprintf("/repo/test/_ecdsa_fixtures/keygen_data_%d.json", i))
+			b, err := os.ReadFile(fmt.Sprintf("%s/test/_ecdsa_fixtures/keygen_data_%d.json", RepoRoot(), i))
 			if err != nil {
 				return nil, err
 			}
